@@ -8,6 +8,7 @@
 #include <string.h>
 #include <iv.h>
 #include <iv_event.h>
+#include <iv_thread.h>
 #include "sx.h"
 #include "kmodel.h"
 #include "pmodel.h"
@@ -27,6 +28,13 @@ static void tmh(void *c)
 	free(c);
 }
 
+static int children_ran;
+
+static void child_body(void *arg)
+{
+	children_ran++;
+}
+
 static void cycle(void)
 {
 	struct iv_event *ev = malloc(sizeof(*ev));
@@ -44,6 +52,10 @@ static void cycle(void)
 	tm->expires.tv_sec = 0;
 	tm->expires.tv_nsec = 0;
 	iv_timer_register(tm);
+	if (sx_opt("withthread", 0)) {
+		/* each loop starts a thread of its own: the first such calls of the process are concurrent */
+		sx_assert(iv_thread_create("child", child_body, NULL) == 0, "C13.iv_thread_create-failed");
+	}
 	iv_main();
 	iv_deinit();
 }
@@ -78,5 +90,7 @@ void sx_main(void)
 	sx_assert(k_count_open(1) == 0, "C18.descriptor-leak-after-deinit");
 	sx_leak_check(0);
 	sx_assert(sx_nthreads() == 1, "C18.thread-left");
+	if (sx_opt("withthread", 0))
+		sx_assert(children_ran == n + (sx_opt("mainloop", 1) ? 1 : 0) * 1, "C13.thread-never-ran");
 	sx_cover("loops.concurrent-init-run-deinit");
 }
